@@ -118,6 +118,7 @@ func (m *Machine) Func(pkgPath, name string) *ssa.Function {
 type nativeFn struct {
 	name string
 	code uintptr // what reflect.Value.Pointer reports
+	ctx  *vmCtx  // for cancel functions: the context they keep alive
 	f    func(fr *frame, args []value) value
 }
 
